@@ -198,6 +198,15 @@ func enumOnce(rf *RunFile, target int, fault, crash int, post bool) (*Exec, erro
 		}
 		if i == target {
 			e.lastTargetFCalls = e.targetFCalls
+			if fault > 0 && e.V == nil && !e.closed {
+				// read-only look at the database through the same handle right after
+				// the failure: counters, scans and indexes must agree
+				e.opIdx = target + 1
+				e.Audit()
+				if e.V != nil {
+					break
+				}
+			}
 		}
 		if i > target && e.V == nil && (fault > 0 || crash > 0) {
 			// follow-up succeeded: liveness after the fault
